@@ -3,6 +3,7 @@ package actionlint
 import (
 	"fmt"
 	"io"
+	"sort"
 	"time"
 )
 
@@ -64,7 +65,20 @@ func (v *Visitor) Visit(n *Workflow) error {
 		t = time.Now()
 	}
 
+	// Visit jobs in the order they are written in the source. Iteration order of map is random so
+	// iterating n.Jobs directly makes results (e.g. which job reports an error of a shared local
+	// action) differ on every run.
+	jobs := make([]*Job, 0, len(n.Jobs))
 	for _, j := range n.Jobs {
+		jobs = append(jobs, j)
+	}
+	sort.SliceStable(jobs, func(i, j int) bool {
+		if jobs[i].Pos == nil || jobs[j].Pos == nil {
+			return jobs[j].Pos != nil && jobs[i].Pos == nil
+		}
+		return jobs[i].Pos.IsBefore(jobs[j].Pos)
+	})
+	for _, j := range jobs {
 		if err := v.visitJob(j); err != nil {
 			return err
 		}
